@@ -898,6 +898,21 @@ func (env *SpecEnv) call(x *ast.CallExpr) Val {
 		}
 		inner := env.bind(id, Val{t: bv, typ: bt})
 		body := inner.evalBool(x.Args[len(x.Args)-1])
+		if len(elemTriggers(body, bv)) > 0 {
+			if nb, ok := absIndexRewrite(body, bv); ok {
+				body = vc.nameElemArrays(nb)
+			}
+		}
+		if pats := elemTriggers(body, bv); len(pats) > 0 {
+			// explicit triggers for struct-element references elem(arr, off+i): pattern inference
+			// is unreliable for terms with arithmetic inside, and the append model states its facts
+			// in exactly this shape
+			body = "(! " + body
+			for _, p := range pats {
+				body += " :pattern (" + p + ")"
+			}
+			body += ")"
+		}
 		return Val{t: fmt.Sprintf("(%s ((%s %s)) %s)", name, bv, vc.te.sortOf(bt), body), typ: boolT}
 	case "has": // has(m, k): key present in map
 		m := env.rv(env.eval(x.Args[0]))
